@@ -15,7 +15,7 @@ type xcase struct {
 	code  string
 	kind  string // "", "async", "gen"
 	label string
-	ref   string                          // optional reference program (default: the input itself)
+	ref   string                        // optional reference program (default: the input itself)
 	mod   func(o *api.TransformOptions) // optional per-case option modifier (define/pure/drop ...)
 }
 
@@ -25,14 +25,14 @@ type xcfg struct {
 }
 
 type runCase struct {
-	Codes []string      `json:"codes"`
-	Calls []interface{} `json:"calls"`
-	Async bool          `json:"async,omitempty"`
-	Fresh bool          `json:"fresh,omitempty"`
-	Mode  string        `json:"mode,omitempty"`
-	NoNames bool        `json:"noNames,omitempty"`
-	Quiet   bool        `json:"quiet,omitempty"`
-	Prelude string      `json:"prelude,omitempty"`
+	Codes   []string      `json:"codes"`
+	Calls   []interface{} `json:"calls"`
+	Async   bool          `json:"async,omitempty"`
+	Fresh   bool          `json:"fresh,omitempty"`
+	Mode    string        `json:"mode,omitempty"`
+	NoNames bool          `json:"noNames,omitempty"`
+	Quiet   bool          `json:"quiet,omitempty"`
+	Prelude string        `json:"prelude,omitempty"`
 }
 type runResp struct {
 	R          [][]string `json:"r"`
@@ -301,19 +301,19 @@ var c01Cfgs = []xcfg{
 }
 
 type xrunner struct {
-	c        *Check
-	cfgs     []xcfg
-	pool     *NodePool
-	calls    []interface{}
-	baseline func(code string, kind string) (string, bool) // nil: the input itself is the reference
-	onOutput func(cs xcase, cfg string, out string)      // optional extra oracle per output
+	c         *Check
+	cfgs      []xcfg
+	pool      *NodePool
+	calls     []interface{}
+	baseline  func(code string, kind string) (string, bool) // nil: the input itself is the reference
+	onOutput  func(cs xcase, cfg string, out string)        // optional extra oracle per output
 	keyPrefix string
-	fresh     bool                        // evaluate every code in a fresh V8 context (outputs with top-level helper variables)
-	skipCfg   func(cs xcase, cfg string) bool // optional: configurations that do not apply to a case
-	prelude   string                      // script evaluated in the context before every code (not seen by esbuild)
-	quiet     bool                        // universal proxies do not log ownKeys / .call lookups
-	noNames   bool                        // do not observe constructor/function names (minify-identifiers without keep-names)
-	classify  func(exp, got string) string // maps a mismatch to a known-finding key ("" = ordinary violation)
+	fresh     bool                                  // evaluate every code in a fresh V8 context (outputs with top-level helper variables)
+	skipCfg   func(cs xcase, cfg string) bool       // optional: configurations that do not apply to a case
+	prelude   string                                // script evaluated in the context before every code (not seen by esbuild)
+	quiet     bool                                  // universal proxies do not log ownKeys / .call lookups
+	noNames   bool                                  // do not observe constructor/function names (minify-identifiers without keep-names)
+	classify  func(exp, got string) string          // maps a mismatch to a known-finding key ("" = ordinary violation)
 	classify2 func(exp, got, input string) []string // same, several keys, sees the input (nil/empty = ordinary violation)
 }
 
